@@ -721,6 +721,15 @@ func (gen *Generator) GenerateCallBySymbol(sym *SexpSymbol, args []Sexp, orig Se
 			if (!known.varargs && len(args) != known.nargs) || (known.varargs && len(args) < known.nargs) {
 				selfTail = false
 			}
+			if known.inputTypes != nil {
+				// a call by name, (f a:1 b:2), is sorted and checked
+				// by the ordinary call path only.
+				for _, arg := range args {
+					if asym, isSym := arg.(*SexpSymbol); isSym && asym.colonTail {
+						selfTail = false
+					}
+				}
+			}
 		}
 	}
 	if selfTail {
